@@ -16,7 +16,8 @@ Extracted (fail closed on every other shape; the recognisers are those of transl
     rejecting else branch; integer bounds; `if len(v) != n: raise`; the geometry subclasses add nothing
                                                                                               -> src_setter_guards
   * the test that decides whether a model RUNS — ModelGroup.__iter__: `for m in self.models: if T: yield m`
-    (or `if not T: continue` + `yield m`, or a generator expression / comprehension over self.models with `if T`) — and
+    (or `if not T: continue` + `yield m`, or a generator expression / comprehension over self.models with `if T`, or
+    `filter(lambda m: T, self.models)`) — and
     the test by which Observation.validate_steps decides that the model a swept key addresses is enabled — the one `if`
     that raises ValueError about the flag: `if not F: raise` — with T / F one of `x.enabled`, `bool(x.enabled)`,
     `processor.get(<key>)` (FTruthy), `... is True` (FIsTrue), `... == True` (FEqTrue)
@@ -33,41 +34,73 @@ import ast
 
 from harness.core import TranslationError
 
-from . import c06, c12
+from . import c06, c12, c12_norm
 from .common import HEADER, body_no_doc, fail, find_func, parse
 
 PRELUDE = ("From Coq Require Import ZArith List String.\nFrom PyxelV Require Import Model.Keys Model.KeysWorld.\n"
            "Import ListNotations.\nOpen Scope string_scope.\n")
 
 
+def normalised_first(recogniser, repo: Path, rel: str, tree, name: str, cls: str | None):
+    """`recogniser` applied to the function NORMALISED by translator/c12_norm.py (private helpers of the package inlined with
+    their early returns turned into nested if/else, single-assignment aliases and module-level literal constants
+    substituted, match -> if/elif, annotations / docstrings / logging dropped); if the normalised form is not recognised,
+    to the function as written; fails closed (with the first error) only when neither form is recognised."""
+    fn = find_func(tree, name, cls)
+    norm = c12_norm.normalize(repo, rel, tree, fn, cls)
+    try:
+        return recogniser(norm)
+    except TranslationError as first:
+        if norm is fn:
+            raise
+        try:
+            return recogniser(fn)
+        except TranslationError:
+            raise first from None
+
+
+def copy_site_n(tree, name: str, cls: str | None, src: str, what: str) -> str:
+    """c06.copy_site on the function normalised by c06.normalise (as translator/c06.py itself reads it), else as written"""
+    try:
+        return c06.copy_site(c06.nfind(tree, name, cls), src, what)
+    except TranslationError as first:
+        try:
+            return c06.copy_site(find_func(tree, name, cls), src, what)
+        except TranslationError:
+            raise first from None
+
+
 def extract(repo: Path) -> dict:
     repo = Path(repo)
-    proc = parse(repo, "pyxel/pipelines/processor.py")
-    grp = parse(repo, "pyxel/pipelines/model_group.py")
-    misc = parse(repo, "pyxel/observation/misc.py")
-    fit = parse(repo, "pyxel/calibration/fitting_datatree.py")
+    R_PROC, R_GRP, R_OBS = "pyxel/pipelines/processor.py", "pyxel/pipelines/model_group.py", "pyxel/observation/observation.py"
+    R_MF = "pyxel/pipelines/model_function.py"
+    proc = c06.parse_n(repo, R_PROC)        # parse_n: the normaliser of c06 can follow helpers into other modules
+    grp = c06.parse_n(repo, R_GRP)
+    misc = c06.parse_n(repo, "pyxel/observation/misc.py")
+    fit = c06.parse_n(repo, "pyxel/calibration/fitting_datatree.py")
     c06.scan_hooks(repo)
     sites = [
-        ("replace", c06.copy_site(find_func(proc, "replace", "Processor"), "self", "Processor.replace")),
-        ("create_new_processor", c06.copy_site(find_func(misc, "create_new_processor"), "processor", "create_new_processor")),
-        ("build_processors", c06.copy_site(find_func(fit, "build_processors"), "processor", "build_processors")),
-        ("update_processor", c06.copy_site(find_func(fit, "update_processor", "ModelFittingDataTree"), "processor",
-                                           "update_processor")),
+        ("replace", copy_site_n(proc, "replace", "Processor", "self", "Processor.replace")),
+        ("create_new_processor", copy_site_n(misc, "create_new_processor", None, "processor", "create_new_processor")),
+        ("build_processors", copy_site_n(fit, "build_processors", None, "processor", "build_processors")),
+        ("update_processor", copy_site_n(fit, "update_processor", "ModelFittingDataTree", "processor", "update_processor")),
     ]
-    obs = parse(repo, "pyxel/observation/observation.py")
-    mf = parse(repo, "pyxel/pipelines/model_function.py")
+    obs = parse(repo, R_OBS)
+    mf = parse(repo, R_MF)
     return dict(proc_fields=c06.custom_copy(proc, "Processor"), group_fields=c06.custom_copy(grp, "ModelGroup"), sites=sites,
                 guards=setter_guards(repo),
-                exec_test=exec_flag_test(find_func(grp, "__iter__", "ModelGroup")),
-                validate_test=validate_flag_test(find_func(obs, "validate_steps", "Observation")),
-                passthrough=args_passthrough(find_func(mf, "__setattr__", "Arguments")))
+                exec_test=normalised_first(exec_flag_test, repo, R_GRP, grp, "__iter__", "ModelGroup"),
+                validate_test=normalised_first(validate_flag_test, repo, R_OBS, obs, "validate_steps", "Observation"),
+                passthrough=normalised_first(args_passthrough, repo, R_MF, mf, "__setattr__", "Arguments"))
 
 
 # ------------------------------------------------------------------------------------------ readers of the enabled flag
 
 
 def _flag_expr(e: ast.AST) -> bool:
-    """an expression that reads a model's enabled flag: `<x>.enabled` or `<p>.get(<key>)`"""
+    """an expression that reads a model's enabled flag: `<x>.enabled` or `<p>.get(<key>)` (`(n := <that>)` has its value)"""
+    if isinstance(e, ast.NamedExpr):
+        e = e.value
     if isinstance(e, ast.Attribute) and e.attr == "enabled":
         return True
     return (isinstance(e, ast.Call) and isinstance(e.func, ast.Attribute) and e.func.attr == "get"
@@ -124,6 +157,12 @@ def exec_flag_test(fn: ast.FunctionDef) -> str:
     if val is not None:
         if isinstance(val, ast.Call) and isinstance(val.func, ast.Name) and val.func.id == "iter" and len(val.args) == 1:
             val = val.args[0]
+        # filter(lambda m: T, self.models)
+        if isinstance(val, ast.Call) and isinstance(val.func, ast.Name) and val.func.id == "filter" and len(val.args) == 2 \
+                and not val.keywords and _self_models(val.args[1]) and isinstance(val.args[0], ast.Lambda):
+            la = val.args[0].args
+            if len(la.args) == 1 and not (la.posonlyargs or la.kwonlyargs or la.vararg or la.kwarg or la.defaults):
+                return flag_test(val.args[0].body, where)
         if isinstance(val, (ast.GeneratorExp, ast.ListComp)) and len(val.generators) == 1:
             g = val.generators[0]
             if _self_models(g.iter) and isinstance(g.target, ast.Name) and isinstance(val.elt, ast.Name) \
@@ -147,11 +186,18 @@ def exec_flag_test(fn: ast.FunctionDef) -> str:
     fail(st, f"{where}: unknown loop body")
 
 
+def _reads_flag(test: ast.AST) -> bool:
+    """the condition of an `if ...: raise` is about the enabled flag: it reads `<x>.enabled` / `<p>.get(<key>)`, or mentions
+    the flag's name (in a string constant of the looked-up key or in a local's name)"""
+    return any(_flag_expr(x) or (isinstance(x, ast.Constant) and isinstance(x.value, str) and "enabled" in x.value)
+               or (isinstance(x, ast.Name) and "enabled" in x.id) for x in ast.walk(test))
+
+
 def validate_flag_test(fn: ast.FunctionDef) -> str:
     where = "Observation.validate_steps"
     hits = []
     for n in ast.walk(fn):
-        if isinstance(n, ast.If) and any(isinstance(x, ast.Raise) for x in n.body) and "enabled" in ast.unparse(n.test):
+        if isinstance(n, ast.If) and any(isinstance(x, ast.Raise) for x in n.body) and _reads_flag(n.test):
             hits.append(n)
     if len(hits) != 1:
         fail(fn if not hits else hits[1], f"{where}: expected exactly one `if <model not enabled>: raise`, found {len(hits)}")
@@ -179,8 +225,17 @@ def args_passthrough(fn: ast.FunctionDef) -> list[str]:
         f = ast.unparse(e.func.value)
         return (f == "super()" and args == [key, value]) or (f == "object" and args == [me, key, value])
 
+    # a local bound ONCE, at the top level of the body, to `self._arguments` is the same dict object (the only statement that
+    # re-binds the attribute is the raw __setattr__ arm, which returns): `args = self._arguments; ... args[key] = value`.
+    # Only AFTER the raw arms: reading self._arguments before them fails while the constructor creates the attribute.
+    counts = c06._binding_counts(fn)
+    aliases = {st.targets[0].id for st in body
+               if isinstance(st, ast.Assign) and len(st.targets) == 1 and isinstance(st.targets[0], ast.Name)
+               and ast.unparse(st.value) == f"{me}._arguments" and counts.get(st.targets[0].id) == 1
+               and st.targets[0].id not in (me, key, value)}
+
     def store(x):
-        return ast.unparse(x) == f"{me}._arguments"
+        return ast.unparse(x) == f"{me}._arguments" or (isinstance(x, ast.Name) and x.id in aliases)
 
     names: list[str] = []
     i = 0
@@ -206,7 +261,8 @@ def args_passthrough(fn: ast.FunctionDef) -> list[str]:
                 i += 1
                 continue
         fail(t, f"{where}: names handed to the unmodified __setattr__ are not a list of constants")
-    rest = body[i:]
+    rest = [st for st in body[i:] if not (isinstance(st, ast.Assign) and len(st.targets) == 1
+                                          and isinstance(st.targets[0], ast.Name) and st.targets[0].id in aliases)]
     # 2. `if key not in self._arguments: raise AttributeError(...)`   3. `self._arguments[key] = value`
     ok = (len(rest) == 2 and isinstance(rest[0], ast.If) and not rest[0].orelse and len(rest[0].body) == 1
           and isinstance(rest[0].body[0], ast.Raise) and "AttributeError" in ast.unparse(rest[0].body[0])
@@ -269,6 +325,28 @@ def guard_of_acc(g: "c12.GuardAcc", where: str) -> str:
     raise TranslationError(f"{where}: guard with an upper bound only")
 
 
+def _setter_guard(repo: Path, rel: str, tree, fn: ast.FunctionDef, cname: str) -> str:
+    """the guard of one property setter, read from the setter normalised exactly as translator/c12.py normalises it before
+    its own `walk_guards` (c12_norm: private helpers / `self._check(v)` methods inlined, aliases of the value, module- and
+    class-level bounds, match, guard clauses); the setter as written is the second try, as in `normalised_first`"""
+    def read(f):
+        v = f.args.args[1].arg
+        acc = {v: c12.GuardAcc()}
+        c12.walk_guards(body_no_doc(f), [v], acc, {})
+        return guard_of_acc(acc[v], f"{cname}.{f.name}")
+
+    norm = c12_norm.normalize(repo, rel, tree, fn, cname)
+    try:
+        return read(norm)
+    except TranslationError as first:
+        if norm is fn:
+            raise
+        try:
+            return read(fn)
+        except TranslationError:
+            raise first from None
+
+
 def setter_guards(repo: Path):
     rows = []
     for rel, cname, _ in c12.CLASSES:
@@ -283,10 +361,7 @@ def setter_guards(repo: Path):
                 if decs != [f"{fn.name}.setter"] or len(fn.args.args) != 2 or fn.name in seen:
                     c12.fail(fn, "setter shape")
                 seen.add(fn.name)
-                v = fn.args.args[1].arg
-                acc = {v: c12.GuardAcc()}
-                c12.walk_guards(body_no_doc(fn), [v], acc, {})
-                rows.append((cname, fn.name, guard_of_acc(acc[v], f"{cname}.{fn.name}")))
+                rows.append((cname, fn.name, _setter_guard(repo, rel, tree, fn, cname)))
     for rel, cname in c12.GEOMETRY_SUBCLASSES:
         c12.check_plain_subclass(repo, rel, cname)
     return rows
